@@ -181,7 +181,18 @@ func (m *monitor) run() {
 		forced bool
 	}
 	primTTL := map[int]map[uint64][]primSeen{}
-	asyncMin := map[int]map[uint64]uint64{}   // client -> txn -> max min_commit_ts learned for an async-commit txn
+	// client -> txn -> every min_commit_ts an answer showed that client for an async-commit txn, with the stamp at
+	// which the answer arrived; asyncGone: stamp of the first CheckSecondaryLocks answer that showed a secondary
+	// without lock and without commit record (the store has then made sure the transaction never commits)
+	type minSeen struct{ seq, ts uint64 }
+	asyncMin := map[int]map[uint64][]minSeen{}
+	asyncGone := map[int]map[uint64]uint64{}
+	noteMin := func(client int, txn, seq, ts uint64) {
+		if asyncMin[client] == nil {
+			asyncMin[client] = map[uint64][]minSeen{}
+		}
+		asyncMin[client][txn] = append(asyncMin[client][txn], minSeen{seq, ts})
+	}
 
 	recs := append([]*simkit.RPCRecord(nil), m.trace...)
 	sort.SliceStable(recs, func(i, j int) bool { return recs[i].SubmitSeq < recs[j].SubmitSeq })
@@ -215,12 +226,7 @@ func (m *monitor) run() {
 							primTTL[r.Client] = map[uint64][]primSeen{}
 						}
 						primTTL[r.Client][req.LockTs] = append(primTTL[r.Client][req.LockTs], primSeen{seq: r.DoneSeq, ttl: resp.LockTtl, forced: req.CurrentTs == math.MaxUint64})
-						if asyncMin[r.Client] == nil {
-							asyncMin[r.Client] = map[uint64]uint64{}
-						}
-						if resp.LockInfo.MinCommitTs > asyncMin[r.Client][req.LockTs] {
-							asyncMin[r.Client][req.LockTs] = resp.LockInfo.MinCommitTs
-						}
+						noteMin(r.Client, req.LockTs, r.DoneSeq, resp.LockInfo.MinCommitTs)
 					}
 				}
 			}
@@ -230,16 +236,17 @@ func (m *monitor) run() {
 				if resp.CommitTs != 0 {
 					learn(r.Client, req.StartVersion, r.DoneSeq, resp.CommitTs)
 				}
-				if asyncMin[r.Client] == nil {
-					asyncMin[r.Client] = map[uint64]uint64{}
-				}
 				for _, l := range resp.Locks {
-					if l.MinCommitTs > asyncMin[r.Client][req.StartVersion] {
-						asyncMin[r.Client][req.StartVersion] = l.MinCommitTs
-					}
+					noteMin(r.Client, req.StartVersion, r.DoneSeq, l.MinCommitTs)
 				}
 				if len(resp.Locks) < len(req.Keys) && resp.CommitTs == 0 {
 					learn(r.Client, req.StartVersion, r.DoneSeq, 0) // a secondary is missing: rolled back
+					if asyncGone[r.Client] == nil {
+						asyncGone[r.Client] = map[uint64]uint64{}
+					}
+					if _, ok := asyncGone[r.Client][req.StartVersion]; !ok {
+						asyncGone[r.Client][req.StartVersion] = r.DoneSeq
+					}
 				}
 			}
 		case *kvrpcpb.ScanLockResponse:
@@ -314,12 +321,20 @@ func (m *monitor) run() {
 					}
 				}
 				if !ok && cts != 0 {
-					if mn := asyncMin[r.Client][txn]; mn != 0 && mn == cts {
-						ok = true
+					// async commit: a commit ts derived from the min_commit_ts values the locks showed this client -
+					// but never once a store had told it that a secondary is gone without a commit record
+					if gone, isGone := asyncGone[r.Client][txn]; isGone && gone < r.SubmitSeq {
+						m.fail("R4-resolve-outcome", fmt.Sprintf("c%d.txn%d", r.Client, txn), "client %d sent ResolveLock(txn %d, commit_version %d) at event %d although a CheckSecondaryLocks answer had shown it at event %d that a secondary of this async-commit transaction has neither lock nor commit record (the transaction is rolled back), and no store reported that commit ts (learned: %v)", r.Client, txn, cts, r.SubmitSeq, gone, known[r.Client][txn])
+						return
+					}
+					for _, ms := range asyncMin[r.Client][txn] {
+						if ms.seq < r.SubmitSeq && ms.ts == cts {
+							ok = true
+						}
 					}
 				}
 				if !ok {
-					m.fail("R4-resolve-outcome", fmt.Sprintf("c%d.txn%d", r.Client, txn), "client %d sent ResolveLock(txn %d, commit_version %d) at event %d but no status answer to that client reported this outcome before (learned: %v, async min-commit %d)", r.Client, txn, cts, r.SubmitSeq, known[r.Client][txn], asyncMin[r.Client][txn])
+					m.fail("R4-resolve-outcome", fmt.Sprintf("c%d.txn%d", r.Client, txn), "client %d sent ResolveLock(txn %d, commit_version %d) at event %d but no status answer to that client reported this outcome before (learned: %v, async min-commit values seen: %v)", r.Client, txn, cts, r.SubmitSeq, known[r.Client][txn], asyncMin[r.Client][txn])
 				}
 			}
 			if len(req.TxnInfos) > 0 {
